@@ -286,8 +286,10 @@ def b3(chk):
             o, e = ent['o'], ent['e']
             seen_reason.add(o['reason'])
             feat['entries'] += 1
-            feat['bidir'] += bool(e['hasZA'] and not o['reason'])
-            feat['bidir_blocked'] += bool(e['hasZA'] and o['reason'])
+            # the classes are counted on what was ASKED (the request as written) and what was COMPUTED (the recorder saw
+            # the reverse direction propagated) - never on what the response states, which is what is being judged
+            feat['bidir'] += bool(o['bidir'] and o['hasRev'] and not o['reason'])
+            feat['bidir_blocked'] += bool(o['bidir'] and o['hasRev'] and o['reason'])
             feat['aggregated'] += len(e['ids']) > 1 and not o['reason']
             feat['aggregated_blocked'] += len(e['ids']) > 1 and bool(o['reason'])
             feat['multislot'] += len(o['nm']) > 1
@@ -314,7 +316,13 @@ def b3(chk):
     missing = [r for r in [''] + ALL_REASONS if r not in seen_reason]
     if missing or not all(feat[k] for k in ('bidir', 'aggregated', 'multislot', 'bidir_blocked', 'aggregated_blocked',
                                               'partly_infinite_penalty')):
-        raise Machinery(f'B3 does not realise every outcome class: missing reasons {missing}, features {feat}')
+        # the batches realise every class on code that keeps the property (green on the unchanged tree).  When this run
+        # already reports violations that are not known findings, a class that is not realised is the doing of the code
+        # under test (an outcome turned into another one): the violations are the verdict, not a machinery failure
+        fresh = [s for s, _ in chk.violations if s not in {k['signature'] for k in chk.known}]
+        if not fresh:
+            raise Machinery(f'B3 does not realise every outcome class: missing reasons {missing}, features {feat}')
+        chk.cov['b3_classes_not_realised_in_a_violating_run'] = dict(reasons=missing, features=feat)
     chk.cov['b3_batches'] = len(traces)
     chk.cov['b3_outcome_classes'] = dict(reasons=sorted(r or 'served' for r in seen_reason), **feat)
     t = traces[0]
@@ -336,7 +344,7 @@ def trace_spec_selftest(chk):
 
     def idx(pred):
         return next(i for i, x in enumerate(base['ent']) if pred(x))
-    sv = idx(lambda x: x['o']['reason'] == '' and x['e']['hasZA'])
+    sv = idx(lambda x: x['o']['reason'] == '' and x['o']['bidir'] and x['o']['hasRev'])
     ag = idx(lambda x: len(x['e']['ids']) > 1)
     bl = idx(lambda x: x['o']['reason'] == 'NO_SPECTRUM')
     npth = idx(lambda x: x['o']['reason'] == 'NO_PATH')
